@@ -108,10 +108,54 @@ func ruleR12(c *Ctx) {
 		// possibly-nil results bound to variables
 		maybeNil := map[*types.Var]string{}
 		fl.walk(func(n ast.Node, fs *FactSet, stmt ast.Node, b *cfg.Block) {
+			// the seed of a worklist: q = append(q, X), q.push(X), q := []T{X} – X a reference
+			// parameter of the traversal (not inside the push helper itself, whose parameter is
+			// whatever its callers push)
+			checkSeed := func(seedExpr ast.Expr, at ast.Node) {
+				seed := ast.Unparen(seedExpr)
+				if cl, ok := seed.(*ast.CompositeLit); ok {
+					for _, el := range cl.Elts {
+						e := el
+						if kv, ok := el.(*ast.KeyValueExpr); ok {
+							e = kv.Value
+						}
+						if c.isNodeRefType(info.TypeOf(e)) {
+							seed = ast.Unparen(e)
+						}
+					}
+				}
+				if v := identVar(info, seed); v != nil && c.isNodeRefType(v.Type()) && c.enclosingParam(u, v) {
+					nSeeds++
+					key := fmt.Sprintf("%s worklist seeded with %s", u.Name, v.Name())
+					if fs.nilnessOfField(seed, "pointer") == 1 {
+						c.r.ok("R12", key, c.m.pos(at.Pos()), v.Name()+".pointer != nil dominates the traversal", props...)
+					} else {
+						c.r.bad("R12", key, c.m.pos(at.Pos()), "the traversal dereferences every popped reference but its seed "+v.Name()+" is not tested for an empty tree ("+v.Name()+".pointer == nil); the sibling traversals test it", props...)
+					}
+				}
+			}
+			isPushHelper := u.Decl != nil && u.Lit == nil && u.Decl.Recv != nil && len(u.Body.List) == 1
 			switch x := n.(type) {
+			case *ast.ExprStmt:
+				if _, elem, ok := c.m.pushCall(x); ok && !isPushHelper {
+					checkSeed(elem, x)
+				}
 			case *ast.AssignStmt:
+				// q := []T{X}
+				if len(x.Rhs) == 1 && x.Tok == token.DEFINE {
+					if cl, ok := ast.Unparen(x.Rhs[0]).(*ast.CompositeLit); ok && len(cl.Elts) == 1 {
+						if _, isSlice := info.TypeOf(cl).Underlying().(*types.Slice); isSlice {
+							checkSeed(cl.Elts[0], x)
+						}
+					}
+				}
 				// (a) worklist seed: q = append(q, X) / append(q, T{…: X})
-				if len(x.Rhs) == 1 {
+				if len(x.Rhs) == 1 && !isPushHelper {
+					if call, ok := ast.Unparen(x.Rhs[0]).(*ast.CallExpr); ok && isBuiltinCall(info, call, "append") && len(call.Args) == 2 {
+						checkSeed(call.Args[1], x)
+					}
+				}
+				if false {
 					if call, ok := ast.Unparen(x.Rhs[0]).(*ast.CallExpr); ok && isBuiltinCall(info, call, "append") && len(call.Args) == 2 {
 						seed := ast.Unparen(call.Args[1])
 						if cl, ok := seed.(*ast.CompositeLit); ok {
